@@ -69,7 +69,17 @@ Definition obs_counter (ob : bobs) (f t : svc) (which : N) : N :=
   | _ => 0
   end.
 
-(** * C04: replay of the accepted events through the generated table *)
+(** * C04: replay of the accepted events through the generated table; every fired transition must
+    also be one of the PROTOCOL's edges ([TxFsm.allowed_edges], written down from the property, not
+    generated), so that a transition added to the table in the source is reported *)
+Definition edge_ok (s s' : N) : bool :=
+  existsb (fun e : string * string => String.eqb (fst e) (status_name s) && String.eqb (snd e) (status_name s')) allowed_edges.
+Definition fire (s : N) (ev : string) : option N :=
+  match set_fsm s ev with
+  | Some s' => if edge_ok s s' then Some s' else None
+  | None => None
+  end.
+
 Record c4s := { c4_st : list (txid * N); c4_kids : list txid }.
 Definition c4_init : c4s := Build_c4s [] [].
 
@@ -86,7 +96,7 @@ Definition c4_tx (w : world) (acc : option c4s) (o : op) (r : N * N * N) : optio
             else if mem_id (b_id b) (c4_kids a) then None
             else Some (Build_c4s (aput (b_id b) (if rc_ret r =? 1 then ST_BEGIN_FAILURE else ST_BEGIN) (c4_st a)) (c4_kids a))
         | Some s =>
-            match set_fsm s (event_of_txstatus (b_xst b)) with
+            match fire s (event_of_txstatus (b_xst b)) with
             | Some s' => if hubs_differ w b then Some (Build_c4s (aput (b_id b) s' (c4_st a)) (c4_kids a)) else None
             | None => None
             end
@@ -94,7 +104,7 @@ Definition c4_tx (w : world) (acc : option c4s) (o : op) (r : N * N * N) : optio
       else
         match alook (b_id b) (c4_st a) with
         | Some s =>
-            match set_fsm s (event_of_receipt (b_typ b)) with
+            match fire s (event_of_receipt (b_typ b)) with
             | Some s' => Some (Build_c4s (aput (b_id b) s' (c4_st a)) (c4_kids a))
             | None => None
             end
